@@ -26,31 +26,31 @@ stays in the pipe is exactly carry-over followed by pipe -/
 theorem assemble_carry_conserves (cfg : BatchCfg) (pending : Nat) (carry pipe : List Message) :
     let a := assembleFromCarry cfg pending carry pipe
     a.batch ++ a.carry ++ a.pipe = carry ++ pipe := by
-  sorry
+  exact assembleFromCarry_conserves cfg pending carry pipe
 
 theorem assemble_pipe_conserves (cfg : BatchCfg) (pending : Nat) (first : Message) (pipe : List Message) :
     let a := assembleFromPipe cfg pending first pipe
     a.batch ++ a.carry ++ a.pipe = first :: pipe := by
-  sorry
+  exact assembleFromPipe_conserves cfg pending first pipe
 
 /-- a pass always makes progress (the oldest message is always taken, however large) -/
 theorem assemble_carry_progress (cfg : BatchCfg) (pending : Nat) (carry pipe : List Message)
     (hc : 1 ≤ cfg.count) (hne : carry ≠ []) :
     (assembleFromCarry cfg pending carry pipe).batch ≠ [] := by
-  sorry
+  exact assembleFromCarry_progress cfg pending carry pipe hc hne
 
 /-- batches respect the count limit and the HWM budget -/
 theorem batch_count_bounded (cfg : BatchCfg) (pending : Nat) (carry pipe : List Message) (first : Message)
     (hc : 1 ≤ cfg.count) :
     (assembleFromCarry cfg pending carry pipe).batch.length ≤ maxCount cfg pending
     ∧ (assembleFromPipe cfg pending first pipe).batch.length ≤ maxCount cfg pending := by
-  sorry
+  exact ⟨assembleFromCarry_count cfg pending carry pipe, assembleFromPipe_count cfg pending first pipe hc⟩
 
 /-- a batch exceeds the physical byte ceiling only if it is a single message -/
 theorem batch_bytes_bounded (cfg : BatchCfg) (pending : Nat) (carry pipe : List Message) :
     let b := (assembleFromCarry cfg pending carry pipe).batch
     (b.map wireSize).sum ≤ cfg.physical ∨ b.length ≤ 1 := by
-  sorry
+  exact assembleFromCarry_bytes cfg pending carry pipe
 
 -- egress buffer ------------------------------------------------------------------------------------
 
@@ -58,7 +58,7 @@ theorem batch_bytes_bounded (cfg : BatchCfg) (pending : Nat) (carry pipe : List 
 theorem advance_writes_prefix (e : Egress) (n : Nat) :
     let e' := Egress.advance (e.chunks.length + 1) e n
     e'.written = e.written ++ e.pendingBytes.take n ∧ e'.pendingBytes = e.pendingBytes.drop n := by
-  sorry
+  exact advance_spec _ e n (Nat.le_refl _)
 
 /-- a control frame queued with priority never lands inside a chunk that is partly on the wire: the bytes
 already written plus the bytes still to come are the old ones with the frame inserted at a chunk boundary
@@ -69,7 +69,7 @@ theorem priority_at_chunk_boundary (e : Egress) (f : List UInt8) (hoff : e.offse
        | [] => f
        | h :: rest => if e.offset > 0 then h.data.drop e.offset ++ f ++ (rest.map (·.data)).flatten
                       else f ++ e.pendingBytes) := by
-  sorry
+  exact pushPriority_pending e f hoff
 
 -- the whole send path -------------------------------------------------------------------------------
 
@@ -77,26 +77,26 @@ theorem priority_at_chunk_boundary (e : Egress) (f : List UInt8) (hoff : e.offse
 carry-over and pipe, is at all times exactly the framing of the accepted messages in acceptance order -/
 theorem sendpath_fifo (cfg : BatchCfg) (evs : List SendEv) :
     (SendPath.run { cfg := cfg } evs).wire = frameBatch (SendPath.run { cfg := cfg } evs).accepted := by
-  sorry
+  exact SendPath.run_fifo cfg evs
 
 /-- what has reached the transport is, at all times, whole chunks plus a prefix of the chunk in progress -/
 theorem written_is_chunk_aligned (cfg : BatchCfg) (evs : List SendEv) :
     let e := (SendPath.run { cfg := cfg } evs).egress
     e.written = ((e.done.map (·.data)).flatten) ++ ((e.chunks.head?.map (·.data.take e.offset)).getD []) := by
-  sorry
+  exact (SendPath.run_aligned cfg evs).1
 
 /-- with no control traffic, once everything is written the byte stream on the wire is the framing of exactly the
 accepted messages -/
 theorem drained_stream (cfg : BatchCfg) (evs : List SendEv) (hctl : ∀ e ∈ evs, ∀ f, e ≠ .control f)
     (hd : let s := SendPath.run { cfg := cfg } evs; s.egress.chunks = [] ∧ s.carry = [] ∧ s.pipe = []) :
     (SendPath.run { cfg := cfg } evs).egress.written = frameBatch (SendPath.run { cfg := cfg } evs).accepted := by
-  sorry
+  exact SendPath.run_drained cfg evs hctl hd.1 hd.2.1 hd.2.2
 
 /-- the session never buffers more than SNDHWM messages in its egress buffer plus one batch in carry-over -/
 theorem session_buffer_bounded (cfg : BatchCfg) (evs : List SendEv) (hc : 1 ≤ cfg.count) :
     let s := SendPath.run { cfg := cfg } evs
     s.egress.msgCount ≤ max cfg.sndhwm 1 ∧ s.carry.length ≤ cfg.count := by
-  sorry
+  exact SendPath.run_bounded cfg evs hc
 
 -- the receive path ------------------------------------------------------------------------------------
 
@@ -105,11 +105,11 @@ sends and application receives -/
 theorem recvpath_fifo (r0 : Nat) (evs : List RecvEv) :
     let r := RecvPath.run { rcvhwm := r0 } evs
     r.delivered ++ r.queue ++ r.buffer = r.decoded := by
-  sorry
+  exact RecvPath.run_fifo r0 evs
 
 theorem recv_queue_bounded (r0 : Nat) (evs : List RecvEv) :
     (RecvPath.run { rcvhwm := r0 } evs).queue.length ≤ max r0 1 := by
-  sorry
+  exact RecvPath.run_queue r0 evs
 
 -- end to end ------------------------------------------------------------------------------------------
 
@@ -117,7 +117,7 @@ theorem recv_queue_bounded (r0 : Nat) (evs : List RecvEv) :
 def MsgOk (m : Message) : Prop := m ≠ [] ∧ (∀ f ∈ m.dropLast, f.more = true) ∧ (∀ f, m.getLast? = some f → f.more = false)
 
 theorem regroup_flatten (ms : List Message) (h : ∀ m ∈ ms, MsgOk m) : regroup [] ms.flatten = (ms, []) := by
-  sorry
+  exact regroup_flatten' ms h
 
 /-- End to end, no control traffic, everything written: however the written stream is cut into reads, the decoder
 yields exactly the accepted messages' frames, which regroup to exactly the accepted messages; and whatever the
@@ -128,11 +128,13 @@ theorem end_to_end (cfg : BatchCfg) (evs : List SendEv) (max : Int) (cuts : List
     (hok : ∀ m ∈ (SendPath.run { cfg := cfg } evs).accepted, MsgOk m ∧ ∀ f ∈ m, C03.FrameOk f ∧ C03.Admits max f)
     (hcuts : cuts.flatten = (SendPath.run { cfg := cfg } evs).egress.written) :
     regroup [] (feedChunks max {} cuts).2 = ((SendPath.run { cfg := cfg } evs).accepted, []) := by
-  sorry
+  rw [feed_written cfg evs max cuts hctl hd.1 hd.2.1 hd.2.2 (fun m hm => (hok m hm).2) hcuts]
+  exact regroup_flatten _ (fun m hm => (hok m hm).1)
 
 theorem delivered_is_prefix (r0 : Nat) (evs : List RecvEv) :
     (RecvPath.run { rcvhwm := r0 } evs).delivered <+: (RecvPath.run { rcvhwm := r0 } evs).decoded := by
-  sorry
+  rw [← RecvPath.run_fifo r0 evs, List.append_assoc]
+  exact List.prefix_append _ _
 
 -- non-vacuity -----------------------------------------------------------------------------------------
 
